@@ -216,7 +216,7 @@ def _slice(res, L, t, part):
                 if V.is_sub(r) and not V.is_diff(r) and all(a in pos for a in r[1]):
                     for j in range(nc):
                         parts_ = [g[pos[a], j] for a in r[1]]
-                        if np.isnan(g[i, j]) or any(np.isnan(x) for x in parts_):
+                        if not np.isfinite(g[i, j]) or not all(np.isfinite(x) for x in parts_):
                             continue
                         res.check("subtotal_share_is_sum_of_addends",
                                   abs(g[i, j] - sum(parts_)) < 1e-9,
@@ -229,7 +229,7 @@ def _slice(res, L, t, part):
                 if V.is_sub(c) and not V.is_diff(c) and all(a in pos for a in c[1]):
                     for i in range(nr):
                         parts_ = [g[i, pos[a]] for a in c[1]]
-                        if np.isnan(g[i, j]) or any(np.isnan(x) for x in parts_):
+                        if not np.isfinite(g[i, j]) or not all(np.isfinite(x) for x in parts_):
                             continue
                         res.check("subtotal_share_is_sum_of_addends",
                                   abs(g[i, j] - sum(parts_)) < 1e-9,
